@@ -395,6 +395,24 @@ def disturb_handles(rng) -> int:
     return moved
 
 
+FAULT = {"countdown": None, "fired": 0}  # injected I/O error: the n-th backend read from now on raises EIO (all proxies)
+
+
+def arm_fault(n: int | None) -> None:
+    FAULT["countdown"] = n
+
+
+def _maybe_fault() -> None:
+    c = FAULT["countdown"]
+    if c is None:
+        return
+    if c <= 1:
+        FAULT["countdown"] = None
+        FAULT["fired"] += 1
+        raise OSError(5, "Input/output error (injected by the harness)")
+    FAULT["countdown"] = c - 1
+
+
 class ProxyFile:
     """Wraps a binary handle given to the code under test and records what is done to it."""
 
@@ -439,6 +457,7 @@ class ProxyFile:
             raise BudgetExceeded(f"read budget {self.budget} exceeded at offset {pos:#x} (+{req})")
 
     def read(self, n: int = -1) -> bytes:
+        _maybe_fault()
         pos = self._fh.tell()
         if (n is None or n < 0) and self.budget is not None and self._size is not None:
             if self._size - pos > self.budget:
@@ -455,6 +474,7 @@ class ProxyFile:
         return b
 
     def readinto(self, buf) -> int:
+        _maybe_fault()
         pos = self._fh.tell()
         data = self._fh.read(len(buf))
         buf[: len(data)] = data
